@@ -292,6 +292,27 @@ def _big_part(g, res):
             findings.append({"key": "C05:big:%s:%s" % (what, g.cls),
                              "msg": "%s on %s%s: matrix side %.12g, explicit chain %.12g in cell %s"
                                     % (what, U.spec_id(g.spec), extra, a[i], b[i], list(g.cell_of_flat(i))), "detail": {"grid": U.spec_id(g.spec)}})
+    # the same coefficient fields held in Fortran order / as strided views (not C-contiguous)
+    if g.d > 1:
+        def relayout(arrs, k):
+            out = []
+            for a in arrs:
+                if k == 0:
+                    out.append(np.asfortranarray(a))
+                else:
+                    big = np.zeros(tuple(2 * n for n in a.shape))
+                    v_ = big[tuple(slice(None, None, 2) for _ in a.shape)]
+                    v_[...] = a
+                    out.append(v_)
+            return out
+        phi = g.cell(phis[0])
+        x = phis[0].ravel()
+        for k, lab in enumerate(("Fortran-ordered", "strided")):
+            Dn = U.FaceVariable_from_views(g.mesh, relayout(g.face_arrays(D), k))
+            un = U.FaceVariable_from_views(g.mesh, relayout([a * s_ for a, s_ in zip(absu, _dir_patterns(g)[3])], k))
+            rep("diffusionTerm", pf.diffusionTerm(Dn) @ x, _div(g, Dn * pf.gradientTerm(phi)), " (%s coefficient arrays)" % lab)
+            rep("convectionTerm", pf.convectionTerm(un) @ x, _div(g, un * pf.linearMean(phi)), " (%s coefficient arrays)" % lab)
+            rep("convectionUpwindTerm", pf.convectionUpwindTerm(un) @ x, _div(g, un * pf.upwindMean(phi, un)), " (%s coefficient arrays)" % lab)
     for fld in phis:
         phi = g.cell(fld)
         x = fld.ravel()
